@@ -86,11 +86,11 @@ func (d *DelaySpec) e2e() *e2e.Delays {
 
 // Case is one self-contained case.
 type Case struct {
-	World string `json:"world,omitempty"` // "" = the chain with its default flags; "options" = every shape-changing flag set (options.go)
-	Kind string  `json:"kind"` // "forward" | "term" | "upgrade"
-	Row  string  `json:"row"`  // term: the row of the decision table to trigger
-	Req  ReqSpec `json:"req"`
-	Up   UpSpec  `json:"up"`
+	World string  `json:"world,omitempty"` // "" = the chain with its default flags; "options" = every shape-changing flag set (options.go)
+	Kind  string  `json:"kind"`            // "forward" | "term" | "upgrade"
+	Row   string  `json:"row"`             // term: the row of the decision table to trigger
+	Req   ReqSpec `json:"req"`
+	Up    UpSpec  `json:"up"`
 }
 
 func body(seed int64, n int) []byte {
@@ -206,15 +206,15 @@ type SeenClient struct {
 
 // Obs is everything observed for one case.
 type Obs struct {
-	Inconclusive bool `json:"-"` // the round trip says nothing (see roundTrip)
-	NUp      int           `json:"nUp"` // requests that reached any upstream under this case id
-	Up       *SeenUp       `json:"up,omitempty"`
-	Client   *SeenClient   `json:"client,omitempty"`
-	Err      string        `json:"err,omitempty"`
-	BodyErr  string        `json:"bodyErr,omitempty"`
-	RawUp    http.Header   `json:"-"`
-	RawResp  *e2e.Response `json:"-"`
-	UpBytes0 int64         `json:"-"`
+	Inconclusive bool          `json:"-"`   // the round trip says nothing (see roundTrip)
+	NUp          int           `json:"nUp"` // requests that reached any upstream under this case id
+	Up           *SeenUp       `json:"up,omitempty"`
+	Client       *SeenClient   `json:"client,omitempty"`
+	Err          string        `json:"err,omitempty"`
+	BodyErr      string        `json:"bodyErr,omitempty"`
+	RawUp        http.Header   `json:"-"`
+	RawResp      *e2e.Response `json:"-"`
+	UpBytes0     int64         `json:"-"`
 }
 
 // Volatile headers, canonicalised away EXPLICITLY (listed in the evidence).
